@@ -149,6 +149,9 @@ pub fn ctors(inp: &str, progress: &str) -> Result<()> {
         .map_err(|e| anyhow!("canonical leaf config rejected: {e}"))?
         .build_circuit();
     let vd = leaf.verifier_data();
+    // a circuit with the private-batch public-input layout (2 leaves), as the pool harness uses
+    let inner = crate::pool::build_stand_in().data.verifier_data();
+    let inner_leaves = crate::pool::INNER_LEAVES;
     let mut pf = fs::File::create(progress)?;
     let mut n = 0u64;
     for (i, case) in cases.iter().enumerate() {
@@ -165,7 +168,7 @@ pub fn ctors(inp: &str, progress: &str) -> Result<()> {
                     "WormholeCircuit::new" => WormholeCircuit::new(cfg).is_err(),
                     "WormholeProver::new" => wormhole_prover::WormholeProver::new(cfg).is_err(),
                     "PrivateBatchCircuit::new" => PrivateBatchCircuit::new(cfg, &vd.common, &vd.verifier_only, 1).is_err(),
-                    _ => PublicBatchCircuit::new(cfg, vd.common.clone(), &vd.verifier_only, 1, 1).is_err(),
+                    _ => PublicBatchCircuit::new(cfg, inner.common.clone(), &inner.verifier_only, 1, inner_leaves).is_err(),
                 }
             }));
             match r {
